@@ -306,7 +306,7 @@ PRF = 'ZODB.ConflictResolution.PersistentReferenceFactory'
 @rule('C10.R6', 'a reference read during resolution is written back in the '
       'spelling it was read in: the per-resolution reference cache is keyed '
       'by the whole reference, and persistent_id returns the stored '
-      'reference data', min_instances=2)
+      'reference data', props=['C14'], min_instances=2)
 def r6(R):
     cls = R.prog.cls(PRF)
     f = R.method(cls, 'persistent_load')
@@ -433,3 +433,41 @@ def r7(R):
         for v in vs:
             R.violation(v.node, v.message, g, v.path)
     R.require(n >= 2, 'no staged record headers found')
+
+
+# ------------------------------------------------------------------ C10.R8
+@rule('C10.R8', 'the resolved record starts with the class metadata exactly '
+      'as the writer\'s record had it: what is dumped first is the object '
+      'loaded first from the new pickle, not something taken out of it '
+      '(class WITH its __getnewargs__ arguments)', props=['C14'],
+      min_instances=1)
+def r8(R):
+    f = R.prog.func('ZODB.ConflictResolution.tryToResolveConflict')
+    # the local that receives the first load() of an unpickler
+    loads = [s for s in walk_local(f.node) if isinstance(s, ast.Assign) and
+             isinstance(s.value, ast.Call) and isinstance(
+                 s.value.func, ast.Attribute) and s.value.func.attr == 'load'
+             and isinstance(s.targets[0], ast.Name)]
+    R.require(loads, 'tryToResolveConflict no longer unpickles the record')
+    loads.sort(key=lambda s: s.lineno)
+    meta = loads[0].targets[0].id
+    dumps = [c for c in walk_local(f.node) if isinstance(c, ast.Call) and
+             isinstance(c.func, ast.Attribute) and c.func.attr == 'dump' and
+             c.args]
+    R.require(dumps, 'tryToResolveConflict no longer writes the resolved '
+              'record')
+    dumps.sort(key=lambda c: c.lineno)
+    first = dumps[0]
+    R.instance('tryToResolveConflict', metadata_local=meta,
+               first_dump=ast.unparse(first))
+    a = first.args[0]
+    if not (isinstance(a, ast.Name) and a.id == meta):
+        R.violation(
+            (f.module.relpath, f.qualname, ' '.join(ast.unparse(
+                first).split()), first.lineno),
+            'the resolved record is started with `%s`, not with the class '
+            'metadata as loaded from the writer\'s record (`%s`): for a '
+            'class with __getnewargs__ the arguments are lost, a fresh '
+            'connection cannot make the ghost (TypeError) and every object '
+            'referring to it becomes unloadable' % (ast.unparse(a), meta),
+            key='resolved record not started with the loaded metadata')
